@@ -182,6 +182,7 @@ func (e *Engine) VerifyFunc(c *FuncContract) *FnCtx {
 		fc.fact(t.S)
 		fc.trusted["global invariant "+gi.Name+" (established by "+shortKey(gi.By)+", proved there; assumes package init has run)"] = true
 	}
+	fc.fieldInvParams(fn, st, true, "true", fn.Pos())
 	// sync the old state with arrays materialised so far (they are all base versions)
 	for k, v := range st.heap {
 		if _, ok := fr.old.heap[k]; !ok {
